@@ -308,3 +308,141 @@ def em_call(fn, a):
     import numpy as np
     fm = a["fixed_mask"]
     return fn(a["arrays"], None if fm is None else np.array(fm, dtype=bool).flat)
+
+
+# ---- pipefunc/map/_prepare.py::_validate_complete_inputs (C12: missing / surplus inputs are rejected) ----------------------
+from pyvc.types import TRec as _TRec2  # noqa: E402
+
+TopoGen = _TRec2("Generations", {"root_args": SS})
+PipelineInputsView = _TRec2("PipelineInputsView", {"topological_generations": TopoGen, "defaults": DSO})
+
+
+def _vci_raises(S, a):
+    roots = a.pipeline.topological_generations.root_args
+    provided = lambda k: S.or_(S.has(a.inputs, k), S.has(a.pipeline.defaults, k))  # noqa: E731
+    missing = S.exists(0, S.len(roots), lambda i: S.not_(provided(roots[i])))
+    extra = S.or_(S.exists_in_dict(a.inputs, lambda k: S.not_(S.contains(roots, k))),
+                  S.exists_in_dict(a.pipeline.defaults, lambda k: S.not_(S.contains(roots, k))))
+    return S.or_(missing, extra)
+
+
+validate_complete_inputs = Contract(
+    "pipefunc/map/_prepare.py::_validate_complete_inputs",
+    params={"pipeline": PipelineInputsView, "inputs": DSO}, returns=None,
+    raises=[("ValueError", _vci_raises)],
+    note="raises exactly when a root argument has neither an input nor a default, or an input / default is given for "
+         "a name that is not a root argument; the pipeline is seen through (topological_generations.root_args, defaults)",
+)
+ALL += [validate_complete_inputs]
+
+
+def vci_gen(rng, tier):
+    from types import SimpleNamespace
+    names = ["x", "y", "z", "w"]
+    for _ in range(400 if tier == "quick" else 4000):
+        roots = rng.sample(names, rng.randint(0, 3))
+        inputs = {k: 1 for k in rng.sample(names, rng.randint(0, 3))}
+        defaults = {k: 2 for k in rng.sample(names, rng.randint(0, 2))}
+        yield {"pipeline": SimpleNamespace(topological_generations=SimpleNamespace(root_args=list(roots)), defaults=defaults),
+               "inputs": inputs}
+
+
+# ---- pipefunc/map/_prepare.py::_is_parameter_reduced_by_function (C06: which axes may not be fixed) --------------------------
+from pyvc.types import TOpt as _TOpt2  # noqa: E402
+
+from .ty import MapSpecT as _MapSpecT  # noqa: E402
+
+PipeFuncParamsView = _TRec2("PipeFuncParamsView", {"parameters": SS, "mapspec": _TOpt2(_MapSpecT)})
+
+is_parameter_reduced = Contract(
+    "pipefunc/map/_prepare.py::_is_parameter_reduced_by_function",
+    params={"func": PipeFuncParamsView, "name": TStr}, returns=TBool,
+    ensures=lambda S, a, r, post: {
+        "the function takes the parameter whole (no MapSpec, or the MapSpec does not list it)": r == S.and_(
+            S.contains(a.func.parameters, a.name),
+            lambda: S.or_(S.is_none(a.func.mapspec), lambda: S.not_(S.exists(
+                0, S.len(S.some(a.func.mapspec).inputs), lambda i: S.eq(S.some(a.func.mapspec).inputs[i].name, a.name)))))},
+)
+ALL += [is_parameter_reduced]
+
+
+def ipr_gen(rng, tier):
+    from types import SimpleNamespace
+    from pipefunc.map._mapspec import MapSpec
+    specs = [None, "x[i] -> y[i]", "x[i], z[j] -> y[i, j]", "x[i, :] -> y[i]", "... -> y[i]"]
+    for sp in specs:
+        for params in (("x",), ("x", "z"), ("z", "w"), ()):
+            for name in ("x", "z", "w", "q"):
+                yield {"func": SimpleNamespace(parameters=params, mapspec=MapSpec.from_string(sp) if sp else None), "name": name}
+
+
+# ---- pipefunc/_pipeline/_validation.py::validate_consistent_defaults (C12: inconsistent defaults are rejected) -------------
+DSB = TDict(TStr, TObj)
+PipeFuncDefaultsView = _TRec2("PipeFuncDefaultsView", {"defaults": DSO, "_bound": DSO})
+SPFD = TSeq(PipeFuncDefaultsView)
+DOutToFunc = TDict(TOut, TObj)
+
+
+def _cons(S, f, o2f, arg):
+    """function f contributes a default for `arg` to the comparison (named spec predicate)."""
+    return S.opaque("spec:considered-default", [f, o2f, arg], lambda f_, o2f_, arg_: S.and_(
+        S.has(f_.defaults, arg_), S.not_(S.has(f_._bound, arg_)), S.not_(S.has(o2f_, S.inject(TOut, "str", arg_)))))
+
+
+def _vcd_raises(S, a):
+    fs = a.functions
+    return S.exists(0, S.len(fs), lambda i: S.exists(0, S.len(fs), lambda j: S.exists_in_dict(
+        fs[i].defaults, lambda arg: S.and_(_cons(S, fs[i], a.output_to_func, arg), _cons(S, fs[j], a.output_to_func, arg),
+                                           lambda: S.not_(S.eq(fs[i].defaults[arg], fs[j].defaults[arg]))))))
+
+
+def _vcd_outer(S, a, v, k):
+    fs, AD, o2f = a.functions, v.arg_defaults, a.output_to_func
+    return {
+        "recorded = considered so far": S.forall_key(TStr, lambda arg: S.has(AD, arg) == S.exists(
+            0, k, lambda i: _cons(S, fs[i], o2f, arg))),
+        "all considered defaults agree with the recorded one": S.forall(0, k, lambda i: S.forall_in_dict(
+            fs[i].defaults, lambda arg: S.implies(_cons(S, fs[i], o2f, arg), lambda: S.and_(
+                S.has(AD, arg), lambda: S.eq(AD[arg], fs[i].defaults[arg]))))),
+    }
+
+
+def _vcd_inner(S, a, v, t):
+    AD, AD0, f, o2f = v.arg_defaults, v._entry.arg_defaults, v.f, a.output_to_func
+    key = lambda u: v._at(u)[0]  # noqa: E731
+    return {
+        "recorded = recorded before + considered items of f so far": S.forall_key(TStr, lambda arg: S.has(AD, arg) == S.or_(
+            S.has(AD0, arg), lambda: S.exists(0, t, lambda u: S.and_(S.eq(key(u), arg), lambda: _cons(S, f, o2f, arg))))),
+        "earlier records unchanged": S.forall_key(TStr, lambda arg: S.implies(S.has(AD0, arg), lambda: S.eq(AD[arg], AD0[arg]))),
+        "considered items of f agree with the record": S.forall(0, t, lambda u: S.implies(
+            _cons(S, f, o2f, key(u)), lambda: S.and_(S.has(AD, key(u)), lambda: S.eq(AD[key(u)], f.defaults[key(u)])))),
+    }
+
+
+validate_consistent_defaults = Contract(
+    "pipefunc/_pipeline/_validation.py::validate_consistent_defaults",
+    params={"functions": SPFD, "output_to_func": DOutToFunc}, returns=None,
+    raises=[("ValueError", _vcd_raises)],
+    loops={0: LoopSpec(_vcd_outer), 1: LoopSpec(_vcd_inner)},
+    locals_={"arg_defaults": DSO},
+    note="raises exactly when two functions declare different defaults for the same argument, counting only "
+         "arguments that the function has not bound and that no function produces",
+)
+ALL += [validate_consistent_defaults]
+
+
+def vcd_gen(rng, tier):
+    from types import SimpleNamespace
+    names = ["x", "y", "z"]
+    for _ in range(600 if tier == "quick" else 6000):
+        fs = []
+        for _q in range(rng.randint(0, 3)):
+            d = {k: rng.choice(["d1", "d2"]) for k in rng.sample(names, rng.randint(0, 3))}
+            b = {k: "b" for k in rng.sample(names, rng.randint(0, 1))}
+            fs.append(SimpleNamespace(defaults=d, _bound=b))
+        o2f = {}
+        if rng.random() < 0.4:
+            o2f[rng.choice(names)] = "producer"
+        if rng.random() < 0.2:
+            o2f[("p", "q")] = "producer2"
+        yield {"functions": fs, "output_to_func": o2f}
